@@ -98,7 +98,20 @@ def _mk_sect(n):
     return sect
 
 
+def _mk_Conv(n):
+    """A second family whose names differ from conv_<n> only in letter case
+    and whose results differ visibly."""
+    def Conv(value):
+        _fault("conv", "n_conv")
+        if value.startswith("!"):
+            _reject("Conv_%d rejects %r" % (n, value), value)
+        return "C%d:%s" % (n, value)
+    Conv.__name__ = "Conv_%d" % n
+    return Conv
+
+
 for _i in range(N):
+    globals()["Conv_%d" % _i] = _mk_Conv(_i)
     globals()["conv_%d" % _i] = _mk_conv(_i)
     globals()["keytype_%d" % _i] = _mk_keytype(_i)
     globals()["sect_%d" % _i] = _mk_sect(_i)
